@@ -528,6 +528,7 @@ type Contract struct {
 	ParamNames []string // functype-derived contracts: the type's parameter names, bound by position
 	CopyFamily bool // a DeepCopy method: contract synthesised from the type declaration (C18)
 	Fresh    bool   // writes only memory allocated in its own activation (checked: frame obligations)
+	Traced   bool     // calls to this function are recorded as ghost facts called!key(args), usable as called("key", args...) in callers' contracts
 	Keeps    []string // struct-name prefixes (e.g. "compiler.") whose fields the function does not write (assumed contracts)
 	Modifies []string
 	ModifiesSet bool
@@ -581,7 +582,7 @@ func (cs *ContractSet) LoadContractText(text, path, pkgName string) error {
 		}
 		switch first {
 		case "spec", "axiom", "lemma", "func", "functype", "fieldfn", "assume-contract", "requires", "assumes", "ensures", "invariant", "ghost", "decreases",
-			"modifies", "keeps", "nopanic", "pure", "inline", "loop", "inlined-loop", "property", "fresh", "copyof", "callbacks-modify-nothing", "witness":
+			"modifies", "keeps", "traced", "nopanic", "pure", "inline", "loop", "inlined-loop", "property", "fresh", "copyof", "callbacks-modify-nothing", "witness":
 			items = append(items, t)
 			lineNo = append(lineNo, i+1)
 		default:
@@ -811,6 +812,8 @@ func (cs *ContractSet) LoadContractText(text, path, pkgName string) error {
 				cur.Pure = true
 			case "inline":
 				cur.Inline = true
+			case "traced":
+				cur.Traced = true
 			case "keeps":
 				cur.Keeps = append(cur.Keeps, strings.Fields(rest)...)
 			case "fresh":
